@@ -524,15 +524,22 @@ class Net(object):
         for _ in range(count):
             self.loop_call(lambda: self._feed_next(conn))
 
-    def server_close(self, conn):
-        """the peer closes / resets the socket: the reactor sees EOF or an error on its next read"""
+    def server_close(self, conn, eof=False):
+        """the peer closes / resets the socket: the reactor sees EOF or an error on its next read.
+        eof=False: the reactor reports it as an error (twisted's connectionLost, a reset): defunct().
+        eof=True: an orderly close; the asyncio, libev, asyncore, eventlet and gevent reactors answer a
+        zero-byte read with a plain close() -- no defunct(), no last_error."""
         from cassandra.connection import ConnectionShutdown
         conn.srv_closed = True
 
-        def eof():
-            if not conn.is_closed and not conn.is_defunct:
+        def on_eof():
+            if conn.is_closed or conn.is_defunct:
+                return
+            if eof:
+                conn.close()
+            else:
                 conn.defunct(ConnectionShutdown("Connection to %s was closed by server" % conn.endpoint))
-        self.loop_call(eof)
+        self.loop_call(on_eof)
 
     def socket_error(self, conn, exc=None):
         conn.srv_closed = True
